@@ -138,6 +138,26 @@ func c17Families(thorough bool) []c17Member {
 		sb.WriteString("\treturn t\n}\n")
 		out = append(out, c17Member{"nested-loops-dependent-starts", n, sb.String(), ""})
 	}
+	// F3c: nested loops whose start is a self-doubling chain over the enclosing counter (the
+	// renamer expands an outer counter's recurrence at every leaf of the inner start expression)
+	for _, n := range c17NestedDoubling {
+		var sb strings.Builder
+		sb.WriteString(hdr + "func F(a int) int {\n\tt := 0\n\tfor i0 := 0; i0 < a; i0++ {\n")
+		for k := 1; k < n; k++ {
+			ind := strings.Repeat("\t", k+1)
+			fmt.Fprintf(&sb, "%sd%d_0 := i%d + i%d\n", ind, k, k-1, k-1)
+			for j := 1; j < 9; j++ {
+				fmt.Fprintf(&sb, "%sd%d_%d := d%d_%d + d%d_%d\n", ind, k, j, k, j-1, k, j-1)
+			}
+			fmt.Fprintf(&sb, "%sfor i%d := d%d_8; i%d < a; i%d++ {\n", ind, k, k, k, k)
+		}
+		fmt.Fprintf(&sb, "%st += i%d\n", strings.Repeat("\t", n+1), n-1)
+		for k := n - 1; k >= 0; k-- {
+			fmt.Fprintf(&sb, "%s}\n", strings.Repeat("\t", k+1))
+		}
+		sb.WriteString("\treturn t\n}\n")
+		out = append(out, c17Member{"nested-loops-doubled-starts", n, sb.String(), ""})
+	}
 	// F4: block count up to beyond the size guard
 	for _, n := range []int{500, 1000, 2000, 2600} {
 		var sb strings.Builder
@@ -155,6 +175,8 @@ func c17Families(thorough bool) []c17Member {
 	}
 	return out
 }
+
+var c17NestedDoubling = []int{1, 2, 3, 4, 6, 8, 12}
 
 type c17Counters struct{ equiv, scev, renamer int64 }
 
